@@ -159,6 +159,7 @@ class Fn:
     fuel: bool = False                              # the definition takes a fuel argument (while loops / recursion)
     subst: dict = field(default_factory=dict)      # source expression text -> (lean code over `v`, type)
     stores: dict = field(default_factory=dict)     # assignment-target text -> variable name (DataFrame columns modelled as variables)
+    call_alias: dict = field(default_factory=dict)  # python call text -> (python call text of a translated function, [indices of the arguments it takes])
     nested: str | None = None                      # translate the nested function (or "<lambda>") of this name inside `func`
     captures: list = field(default_factory=list)   # variables of the enclosing function the closure reads / writes: its callback state
     closures: dict = field(default_factory=dict)   # in an outer function: python name of a nested function / "<lambda>" -> lean name of its translation
@@ -172,7 +173,7 @@ class Fn:
 
 
 MODULE_STRUCTS = {"AlgoDsu": ["DisjointSetUnion"], "AlgoPopulation": ["ChainTrees", "LazyLoadingTrees", "NestTrees"]}
-MODULE_IMPORTS = {"AlgoCheckers": ["AlgoDsu"], "AlgoBranches": ["AlgoTraverse"]}
+MODULE_IMPORTS = {"AlgoCheckers": ["AlgoDsu"], "AlgoBranches": ["AlgoTraverse"], "AlgoSubtree": ["AlgoTraverse"]}
 
 STRUCTS = {
     "DisjointSetUnion": {"element_parent": "List Int", "rank": "List Int"},
@@ -312,6 +313,8 @@ class FnTr:
         """Python truthiness"""
         if t == "Bool":
             return c
+        if isinstance(t, tuple) and t[0] == "Option" and t[1] == "Bool":
+            return f"(({c}).getD false)"         # bool(None) = bool(False) = False
         if isinstance(t, tuple) and t[0] == "Option":
             return f"({c}).isSome"
         if t == "Int":
@@ -457,6 +460,9 @@ class FnTr:
             if ti == "Int":
                 n = self.bindname()
                 return s1 + s2 + [f"Py.bind (Py.idx {a} {i}) fun {n} =>"], n, ta[1]
+            if ti == ("List", "Int"):
+                n = self.bindname()
+                return s1 + s2 + [f"Py.bind (Py.take {a} {i}) fun {n} =>"], n, ta
         if isinstance(ta, tuple) and ta[0] == "Dict" and ti == ta[1]:
             n = self.bindname()
             return s1 + s2 + [f"Py.bind (Py.Dict.get? {a} {i}) fun {n} =>"], n, ta[2]
@@ -597,6 +603,12 @@ class FnTr:
             n = self.bindname()
             steps.append(f"let {n} := {e.func.id} v.cbs {' '.join(codes)}; let v := {{ v with cbs := {n}.1 }};")
             return steps, f"{n}.2", parse_type(rty)
+        # --- a call that is, at the level of the translated data, a call of another translated function
+        if f in self.spec.call_alias:
+            tgt, idxs = self.spec.call_alias[f]
+            e = ast.Call(ast.parse(tgt).body[0].value, [args[i] for i in idxs], [])
+            ast.fix_missing_locations(e)
+            f, args, kw = tgt, e.args, {}
         # --- calls to other translated functions
         if f in self.table:
             callee = self.table[f]
@@ -915,6 +927,14 @@ class FnTr:
         return self.s_Assign(ast.Assign([s.target], s.value))
 
     def s_If(self, s):
+        if isinstance(s.test, ast.NamedExpr) and isinstance(s.test.target, ast.Name):
+            # `if x := e:`  ->  `x = e; if x:`
+            asg = ast.Assign([ast.Name(s.test.target.id, ast.Store())], s.test.value)
+            new = ast.If(ast.Name(s.test.target.id, ast.Load()), s.body, s.orelse)
+            for nd in (asg, new):
+                ast.copy_location(nd, s); ast.fix_missing_locations(nd)
+            a, b = self.stmt(asg), self.s_If(new)
+            return f"(Py.seq {a}\n{b})"
         st, c, t = self.tr(s.test)
         a = self.block(s.body)
         b = self.block(s.orelse) if s.orelse else "Py.skip"
@@ -1247,7 +1267,7 @@ spec(lean="lazy_getitem", module="AlgoPopulation", file="swcgeom/core/population
      callbacks={"Tree.from_swc": ("(read : σ → Int → σ × Int)", 1, "Int")})
 
 
-spec(lean="to_sub_topology", module="AlgoSubtree", file="swcgeom/core/swc_utils/subtree.py", func="to_sub_topology",
+spec(lean="to_sub_topology", module="AlgoSubtree", file="swcgeom/core/swc_utils/subtree.py", func="to_sub_topology", callee=["to_sub_topology"],
      params=["sub"],
      vars={"sub": "(List Int) × (List Int)", "sub_id": "List Int", "sub_pid": "List Int", "keeped_id": "List Bool",
            "old2new": "Dict Int Int", "new_id": "List Int", "new_pid": "List Int"},
@@ -1286,6 +1306,22 @@ spec(lean="mark_roots_as_somas_", module="AlgoNormalizer", file="swcgeom/core/sw
      doc="`swcgeom/core/swc_utils/normalizer.py::mark_roots_as_somas_` (DataFrame columns as variables; `update_type=False` is `none`)")
 
 
+spec(lean="subtree_collect", module="AlgoSubtree", file="swcgeom/core/tree_utils_impl.py", func="get_subtree_impl", nested="<lambda>",
+     params=["n", "parent"], vars={"n": "Int", "parent": "Option Unit", "ids": "List Int"}, ret="Unit", captures=["ids"],
+     doc="`swcgeom/core/tree_utils_impl.py::get_subtree_impl`, the `enter` lambda")
+spec(lean="get_subtree_impl", module="AlgoSubtree", file="swcgeom/core/tree_utils_impl.py", func="get_subtree_impl",
+     params=["tids", "tpids", "n"],
+     vars={"tids": "List Int", "tpids": "List Int", "n": "Int", "ids": "List Int", "topo": "(List Int) × (List Int)", "sub_ids": "List Int", "sub_pid": "List Int"},
+     ret="((List Int) × (List Int)) × (List Int)", fuel=True, closures={"<lambda>": "subtree_collect"},
+     subst={"swc_like.id()": ("v.tids", "List Int"), "swc_like.pid()": ("v.tpids", "List Int")},
+     call_alias={"to_subtree_impl": ("to_sub_topology", [1])},
+     doc="`swcgeom/core/tree_utils_impl.py::get_subtree_impl` at the topology level (the tree is its columns `tids`, `tpids`; the attribute "
+         "columns are gathered by `to_subtree_impl` through the returned mapping)")
+spec(lean="propagate", module="AlgoSubtree", file="swcgeom/core/swc_utils/subtree.py", func="propagate_removal", nested="propagate",
+     params=["n", "parent"], vars={"n": "Int", "parent": "Option Bool", "new_ids": "List Int", "remove": "Bool"}, ret="Bool", captures=["new_ids"])
+spec(lean="propagate_removal", module="AlgoSubtree", file="swcgeom/core/swc_utils/subtree.py", func="propagate_removal",
+     params=["topology"], vars={"topology": "(List Int) × (List Int)", "new_ids": "List Int", "pids": "List Int", "ids": "List Int"},
+     ret="(List Int) × (List Int)", fuel=True, closures={"propagate": "propagate"})
 _BR = "List ((List (List Int)) × (List Int))"
 _TREE = "swcgeom/core/tree.py"
 spec(lean="collect_branches", module="AlgoBranches", file=_TREE, cls="Tree", func="get_branches", nested="collect_branches",
